@@ -46,6 +46,7 @@ func cmdRun(args []string) int {
 	maporder := fs.Int("maporder", 0, "symbolic map order up to N keys")
 	maxpaths := fs.Int("maxpaths", 200000, "max paths per harness")
 	jsonOut := fs.String("json", "", "write report json")
+	maxdec := fs.Int("maxdec", 0, "max symbolic decisions per path")
 	sites := fs.Bool("sites", false, "print the functions where symbolic decisions were taken")
 	var params multi
 	fs.Var(&params, "param", "name=value (repeatable)")
@@ -67,6 +68,9 @@ func cmdRun(args []string) int {
 	cfg.MapOrderMax = *maporder
 	cfg.MaxPaths = *maxpaths
 	cfg.SiteStats = *sites
+	if *maxdec > 0 {
+		cfg.MaxDecisions = *maxdec
+	}
 	cfg.Params = map[string]int{}
 	for _, p := range params {
 		kv := strings.SplitN(p, "=", 2)
